@@ -28,7 +28,7 @@ def inplace_mutate_nested(payload):
     stack = [payload]
     while stack:
         x = stack.pop()
-        children = list(x.values()) if type(x) is dict else list(x) if type(x) is list else []
+        children = list(x.values()) if type(x) is dict else list(x) if type(x) in (list, tuple) else []
         for c in children:
             if type(c) is dict:
                 c["\u0000verif-probe"] = 1
@@ -36,7 +36,7 @@ def inplace_mutate_nested(payload):
             if type(c) is list:
                 c.append("verif-probe")
                 return True
-        stack.extend(c for c in children if type(c) in (dict, list))
+        stack.extend(c for c in children if type(c) in (dict, list, tuple))
     return False
 
 
